@@ -462,7 +462,7 @@ func init() {
 		}
 		rs := runJobs(jobs, 0, start.Add(20*time.Minute))
 		fails := map[string]c06fail{}
-		var drives, props int64
+		var drives, props, empty int64
 		var samples []any
 		bad := false
 		for _, r := range rs {
@@ -473,6 +473,7 @@ func init() {
 			}
 			drives += int64(r.Extra["drives"])
 			props += int64(r.Extra["proposals"])
+			empty += int64(r.Extra["drives_without_proposal"])
 			for _, f := range r.Found {
 				if _, ok := fails[f.Key]; !ok {
 					fails[f.Key] = c06fail{f.Key, f.Msg}
@@ -484,8 +485,8 @@ func init() {
 				}
 			}
 		}
-		rc := finishEnum("C15", tier, start, drives, props, fails, samples,
-			"full grid: increment {1ns,1us,1ms,1s} x previous timestamp {0,1,inc-1,inc,7inc-1,7inc,7inc+1} (+0 and +1.7e18 base) x clock = previous + {-2inc,-1,0,+1,inc-1,inc,inc+1,3.5inc} x every ordered selection of <=3 of 3 pool transactions (16 lists) x height {1,N,2^32-1} x view {0,1,2} (N=4, reached through real ChangeView quorums) x N {1,4} x anti-MEV off/on x dynamic block time off/on x {proposal forced in Start, proposal after Reset+OnTimeout}; each case is one real Start/OnReceive/Reset/OnTimeout drive; distinct_nontrivial = proposals actually broadcast and checked",
+		rc := finishEnum("C15", tier, start, props, drives-empty, fails, samples,
+			"full grid: increment {1ns,1us,1ms,1s} x previous timestamp {0,1,inc-1,inc,7inc-1,7inc,7inc+1} (+0 and +1.7e18 base) x clock = previous + {-2inc,-1,0,+1,inc-1,inc,inc+1,3.5inc} x every ordered selection of <=3 of 3 pool transactions (16 lists) x height {1,N,2^32-1} x view {0,1,2} (N=4, reached through real ChangeView quorums) x N {1,4} x anti-MEV off/on x dynamic block time off/on x {proposal forced in Start, proposal after Reset+OnTimeout}; each case is one real Start/OnReceive/Reset/OnTimeout drive; evaluations = proposals broadcast and checked (a single-node drive proposes for two heights), distinct_nontrivial = distinct grid points whose drive produced at least one proposal",
 			true, []string{"the same grid in both tiers (it is small enough to run in full)", "reading of 'whenever that is larger': the truncated clock must be used whenever it exceeds previous timestamp + increment; otherwise only 'strictly greater than the previous timestamp' is required"})
 		if bad {
 			return 2
